@@ -153,7 +153,9 @@ impl<'de> Deserialize<'de> for Bytes {
             where
                 A: serde::de::SeqAccess<'de>,
             {
-                let mut buf = Vec::with_capacity(seq.size_hint().unwrap_or_default());
+                // The hint is the length the input declares, not what it holds: cap what is
+                // reserved up front (a declared 2^40 elements must not be allocated).
+                let mut buf = Vec::with_capacity(seq.size_hint().unwrap_or_default().min(4096));
                 while let Some(byte) = seq.next_element()? {
                     buf.push(byte);
                 }
